@@ -41,16 +41,16 @@ Definition body (c : list Z) : list (@op T) := [OptZero; FB c; Step].
 Lemma phys_unfold skip c (s : ost T) : run (phys skip c) s = run (body c) (upd_skipq s (o_skipq s ++ [skip])).
 Proof. reflexivity. Qed.
 
-(* a skipped physical batch (hooks variants): its clipped samples join the pending sum, nothing else happens *)
+(* a skipped physical batch (every variant, ghost included): its clipped samples join the pending sum, nothing else happens *)
 Lemma body_skip_hooks (s : ost T) c :
-  o_variant s <> Ghost -> o_skipq s = [true] -> pend_ok s ->
+  o_skipq s = [true] -> pend_ok s ->
   let s' := run (body c) s in
   rest s' = rest (upd_last_skipped (upd_skipq s []) true) /\ o_last_skipped s' = true /\
   pend s' = pend s ++ map (fun sid => (sid, Some (o_mgn s))) c /\ pend_ok s'.
 Proof.
-  intros V Q P. destruct s as [v a gs sm gr q ls nm mgn ebs mean sec hook rate hist nb np accum rk wd ss un tq lr mxc mnc ust evs].
-  cbn in V, Q, P. subst q. unfold pend_ok, pend in *. cbn [o_last_skipped o_summed] in *.
-  destruct v; try contradiction; destruct accum; destruct ls;
+  intros Q P. destruct s as [v a gs sm gr q ls nm mgn ebs mean sec hook rate hist nb np accum rk wd ss un tq lr mxc mnc ust evs].
+  cbn in Q, P. subst q. unfold pend_ok, pend in *. cbn [o_last_skipped o_summed] in *.
+  destruct v; destruct accum; destruct ls; destruct gr;
     try (specialize (P eq_refl)); try (destruct sm as [[its pr]|]; cbn in P; try subst pr);
     cbv -[map app clip_items cell_ids flat_map nmul nofZ neqb ndiv Z.add]; unfold clip_items, cell_ids; cbn [c_bid c_sids];
     rewrite ?map_app, ?map_map; cbn [strip_item fst snd app]; repeat split; auto.
@@ -185,12 +185,12 @@ Proof.
   intros (G1 & G2 & G3). unfold grad_items in *. cbn. repeat split; congruence.
 Qed.
 
-Lemma sim_scale (s1 s2 : ost T) : o_variant s1 <> Ghost -> Eq s1 s2 -> Req s1 s2 (ref_scale s1) (ref_scale s2).
+Lemma sim_scale (s1 s2 : ost T) : Eq s1 s2 -> Req s1 s2 (ref_scale s1) (ref_scale s2).
 Proof.
-  intros V H. open_states s1 s2 H. cbn in V.
+  intros H. open_states s1 s2 H.
   unfold ref_scale, ref_accit. cbn [o_mean o_variant o_gs]. destruct mean2.
   2: { cbn. split; [reflexivity|]. unfold Eq, restE, Fr. cbn. repeat split; auto; try congruence. }
-  destruct v2; try contradiction; rewrite A; destruct (gs_accum_iters gs2) eqn:A2; cbn [sbind];
+  destruct v2; rewrite ?A; destruct (gs_accum_iters gs2) eqn:A2; cbn [sbind];
     try (split; [reflexivity|]; unfold restE, Fr; cbn; repeat split; congruence);
     (split; [reflexivity|]); unfold Eq, restE, Fr; cbn [o_variant o_acc o_gs o_summed o_grad o_skipq o_last_skipped o_nm o_mgn o_ebs o_mean o_secure
       o_has_hook o_rate o_hist o_next_bid o_noise_pos o_accum_allowed o_rank o_world o_sample_size o_unclipped o_target_q o_clip_lr
@@ -198,17 +198,21 @@ Proof.
     repeat split; auto; try congruence; try (apply grad_equiv_div; assumption).
 Qed.
 
-Lemma sim_hook (s1 s2 : ost T) : o_variant s1 <> Ghost -> Eq s1 s2 -> Req s1 s2 (ref_hook s1) (ref_hook s2).
+Lemma sim_hook (s1 s2 : ost T) : Eq s1 s2 -> Req s1 s2 (ref_hook s1) (ref_hook s2).
 Proof.
-  intros V H.
+  intros H.
   destruct (ref_acc_fun s1 (o_nm s1) (nmul (o_rate s1) (nofZ 1))) as (h & r & Hacc).
   assert (Hk : forall k, exists h r, forall s0 : ost T, o_acc s0 = o_acc s1 -> o_hist s0 = o_hist s1 ->
             ref_acc s0 (o_nm s1) (nmul (o_rate s1) (nofZ k)) = match r with None => SOk (upd_hist s0 h) tt | Some e => SErr (upd_hist s0 h) e end).
   { intros k. apply ref_acc_fun. }
   clear h r Hacc.
-  open_states s1 s2 H. cbn in V, Hk.
+  open_states s1 s2 H. cbn in Hk.
   unfold ref_hook, ref_accit. cbn [o_variant o_gs o_nm o_rate].
-  destruct v2; try contradiction; rewrite A; destruct (gs_accum_iters gs2) as [k|e] eqn:A2; cbn [sbind];
+  destruct v2.
+  4: { destruct (Hk 1%Z) as (h & r & Hacc); cbn [sbind]; rewrite !Hacc by reflexivity; destruct r; cbn [sbind];
+       (split; [reflexivity|]); unfold Eq, restE, Fr, emit; cbn; rewrite ?map_app; cbn [map strip_event];
+       repeat split; auto; try congruence. }
+  all: rewrite A; destruct (gs_accum_iters gs2) as [k|e] eqn:A2; cbn [sbind];
     try (split; [reflexivity|]; unfold restE, Fr; cbn; repeat split; congruence);
     destruct (Hk k) as (h & r & Hacc); rewrite !Hacc by reflexivity; destruct r; cbn [sbind];
     (split; [reflexivity|]); unfold Eq, restE, Fr, emit; cbn; rewrite ?map_app; cbn [map strip_event];
@@ -224,24 +228,22 @@ Lemma restE_hook_flag (s1 s2 : ost T) : restE s1 = restE s2 -> o_has_hook s1 = o
 Proof. unfold restE. intros H. inversion H. auto. Qed.
 
 Lemma sim_tail (t1 t2 : ost T) :
-  o_variant t1 <> Ghost -> Eq0 t1 t2 ->
+  Eq0 t1 t2 ->
   restE (sstate (sbind (tail t1) emitf)) = restE (sstate (sbind (tail t2) emitf)) /\
   o_skipq (sstate (sbind (tail t1) emitf)) = o_skipq t1 /\ o_skipq (sstate (sbind (tail t2) emitf)) = o_skipq t2.
 Proof.
-  intros V H. unfold tail.
+  intros H. unfold tail.
   pose proof (sim_add_noise t1 t2 H) as R1.
   destruct (ref_add_noise t1) as [a1 u1|a1 e1], (ref_add_noise t2) as [a2 u2|a2 e2]; cbn in R1; try contradiction.
   2: { cbn [sbind sstate]. destruct R1 as (_ & R & (F1 & _) & (F2 & _)). auto. }
   destruct R1 as (_ & E1 & (F1 & _ & V1) & (F2 & _)). cbn [sbind].
-  assert (Va : o_variant a1 <> Ghost) by congruence.
-  pose proof (sim_scale a1 a2 Va E1) as R2.
+  pose proof (sim_scale a1 a2 E1) as R2.
   destruct (ref_scale a1) as [b1 w1|b1 e1], (ref_scale a2) as [b2 w2|b2 e2]; cbn in R2; try contradiction.
   2: { cbn [sbind sstate]. destruct R2 as (_ & R & (G1 & _) & (G2 & _)). repeat split; congruence. }
   destruct R2 as (_ & E2 & (G1 & _ & V2) & (G2 & _)). cbn [sbind].
-  assert (Vb : o_variant b1 <> Ghost) by congruence.
   destruct (restE_hook_flag b1 b2 (proj1 E2)) as (HK & _). rewrite <- HK.
   destruct (o_has_hook b1).
-  - pose proof (sim_hook b1 b2 Vb E2) as R3.
+  - pose proof (sim_hook b1 b2 E2) as R3.
     destruct (ref_hook b1) as [c1 x1|c1 e1], (ref_hook b2) as [c2 x2|c2 e2]; cbn in R3; try contradiction.
     2: { cbn [sbind sstate]. destruct R3 as (_ & R & (K1 & _) & (K2 & _)). repeat split; congruence. }
     destruct R3 as (_ & (RE & SE & AE & GE) & (K1 & _) & (K2 & _)). cbn [sbind sstate emitf].
@@ -261,24 +263,26 @@ Qed.
 Ltac crunch2 := cbv -[map app nmul nofZ neqb Z.add strip_event strip_item ref_add_noise ref_scale ref_hook clip_items cell_ids].
 
 (* zero_grad; backward; the clipping stage and the skip-queue pop of the LAST physical batch (or of the unsplit batch) *)
+Definition accit_after (v : variant) : result Z := match v with Ghost => Err ValueError | _ => Ok 1%Z end.
 Lemma pre_final (s : ost T) c :
-  o_variant s <> Ghost -> (o_skipq s = [false] \/ o_skipq s = []) -> pend_ok s ->
+  (o_skipq s = [false] \/ o_skipq s = []) -> pend_ok s ->
   exists t, run (body c) s = sstate (sbind (tail t) emitf) /\
             o_skipq t = [] /\ restE t = restE s /\
             (exists v, o_summed t = Some v /\ s_proc v = false /\
                        map strip_item (s_items v) = pend s ++ map (fun sid => (sid, Some (o_mgn s))) c) /\
-            gs_accum_iters (o_gs t) = Ok 1%Z /\ o_variant t = o_variant s.
+            gs_accum_iters (o_gs t) = accit_after (o_variant s) /\ o_variant t = o_variant s.
 Proof.
-  intros V Q P.
+  intros Q P.
   destruct s as [v a gs sm gr q ls nm mgn ebs mean sec hook rate hist nb np accum rk wd ss un tq lr mxc mnc ust evs].
-  cbn in V, Q, P. unfold pend_ok, pend in *. cbn [o_last_skipped o_summed o_mgn] in *.
+  cbn in Q, P. unfold pend_ok, pend in *. cbn [o_last_skipped o_summed o_mgn] in *.
   cbn [run body fold_left exec]. rewrite zero_eq, step_eq.
   unfold ref_step, ref_pre_step, ref_after_accumulate, ref_check_skip, ref_clip.
-  destruct Q as [-> | ->]; (destruct v; try contradiction); destruct accum; destruct ls;
+  destruct Q as [-> | ->]; destruct v; destruct accum; destruct ls;
     try (specialize (P eq_refl)); try (destruct sm as [[its pr]|]; cbn in P; try subst pr); destruct gr;
     crunch2; (eexists; split; [reflexivity|]); cbn; rewrite ?map_app, ?strip_clip;
     repeat split; eauto;
-    try (eexists; split; [reflexivity|]; split; [reflexivity|]; cbn [s_items]; rewrite ?map_app, ?map_map; reflexivity).
+    try (eexists; split; [reflexivity|]; split; [reflexivity|]; cbn [s_items]; rewrite ?map_app, ?map_map; reflexivity);
+    try (eexists; split; [reflexivity|]; split; [reflexivity|]; cbn [s_items]; unfold clip_items; rewrite ?map_app, ?map_map; reflexivity).
 Qed.
 
 Lemma run_app (l1 l2 : list (@op T)) s : run (l1 ++ l2) s = run l2 (run l1 s).
@@ -288,45 +292,41 @@ Proof. unfold rest, restE. intros H. inversion H. repeat split; congruence. Qed.
 Lemma restE_fields (s1 s2 : ost T) : restE s1 = restE s2 -> o_mgn s1 = o_mgn s2 /\ o_variant s1 = o_variant s2.
 Proof. unfold restE. intros H. inversion H. auto. Qed.
 
-(* C10, core: for the hooks-based optimizers (flat, per-layer, adaptive loop), from ANY state in which the skip queue is
+(* C10, core: for every optimizer variant (flat, per-layer, adaptive loop, ghost clipping), from ANY state in which the skip queue is
    empty, training on the physical batches cs -- signals enqueued by the sampler, zero_grad / backward / step per physical
    batch -- has the same bid-free observables (noise draws, accountant records, released (sample id, clipping norm) lists,
    history, noise-stream position, ...) as one zero_grad / backward / step on the unsplit batch. *)
 Lemma split_gen (cs : list (list Z)) : cs <> [] -> forall (s1 s2 : ost T) b,
-  o_variant s1 <> Ghost -> o_skipq s1 = [] -> pend_ok s1 ->
+  o_skipq s1 = [] -> pend_ok s1 ->
   o_skipq s2 = [] -> o_last_skipped s2 = false -> restE s1 = restE s2 ->
   pend s1 ++ map (fun sid => (sid, Some (o_mgn s1))) (List.concat cs) = map (fun sid => (sid, Some (o_mgn s2))) b ->
   restE (run (split_prog cs) s1) = restE (run (unsplit_prog b) s2) /\
   o_skipq (run (split_prog cs) s1) = [] /\ o_skipq (run (unsplit_prog b) s2) = [].
 Proof.
-  induction cs as [|c cs IH]; [contradiction|]. intros _ s1 s2 b V Q1 P1 Q2 L2 RE HI.
+  induction cs as [|c cs IH]; [contradiction|]. intros _ s1 s2 b Q1 P1 Q2 L2 RE HI.
   destruct cs as [|c' r].
   - (* last physical batch *)
     cbn [split_prog List.concat] in *. rewrite app_nil_r in HI. rewrite phys_unfold, Q1. cbn [app].
     set (s1' := upd_skipq s1 [false]).
-    assert (H1 : o_variant s1' <> Ghost) by exact V.
-    destruct (pre_final s1' c H1 (or_introl eq_refl) P1) as (t1 & R1 & K1 & E1 & (v1 & S1 & PR1 & I1) & A1 & V1).
-    assert (V2 : o_variant s2 <> Ghost) by (destruct (restE_fields _ _ RE) as (_ & <-); exact V).
+    destruct (pre_final s1' c (or_introl eq_refl) P1) as (t1 & R1 & K1 & E1 & (v1 & S1 & PR1 & I1) & A1 & V1).
+    assert (V2 : o_variant s2 = o_variant s1') by (destruct (restE_fields _ _ RE) as (_ & <-); reflexivity).
     assert (P2 : pend_ok s2) by (unfold pend_ok; rewrite L2; discriminate).
-    destruct (pre_final s2 b V2 (or_intror Q2) P2) as (t2 & R2 & K2 & E2 & (v2 & S2 & PR2 & I2) & A2 & W2).
+    destruct (pre_final s2 b (or_intror Q2) P2) as (t2 & R2 & K2 & E2 & (v2 & S2 & PR2 & I2) & A2 & W2).
     unfold unsplit_prog. fold (body b). rewrite R1, R2.
     assert (EQ : Eq0 t1 t2).
     { unfold Eq0. split; [rewrite E1, E2; exact RE|]. split; [|congruence].
       rewrite S1, S2. cbn. split; [|congruence]. rewrite I1, I2. unfold pend at 2. rewrite L2. cbn [app].
       exact HI. }
-    assert (Vt : o_variant t1 <> Ghost) by (rewrite V1; exact V).
-    destruct (sim_tail t1 t2 Vt EQ) as (X1 & X2 & X3). rewrite X2, X3. auto.
+    destruct (sim_tail t1 t2 EQ) as (X1 & X2 & X3). rewrite X2, X3. auto.
   - (* a skipped physical batch, then the rest *)
     change (split_prog (c :: c' :: r)) with (phys true c ++ split_prog (c' :: r)). rewrite run_app, phys_unfold, Q1. cbn [app].
     set (s1' := upd_skipq s1 [true]).
-    assert (H1 : o_variant s1' <> Ghost) by exact V.
-    destruct (body_skip_hooks s1' c H1 eq_refl P1) as (RS & LS & PD & PK).
+    destruct (body_skip_hooks s1' c eq_refl P1) as (RS & LS & PD & PK).
     set (s1'' := run (body c) s1') in *.
     destruct (rest_restE _ _ RS) as (RE1 & SQ & _).
     assert (REa : restE s1'' = restE s1) by (rewrite RE1; reflexivity).
     destruct (restE_fields _ _ REa) as (M1 & W1).
     apply (IH ltac:(discriminate) s1'' s2 b).
-    + rewrite W1. exact V.
     + rewrite SQ. reflexivity.
     + exact PK.
     + exact Q2.
@@ -336,12 +336,12 @@ Proof.
 Qed.
 
 Theorem bmm_refines_unsplit (cs : list (list Z)) (s1 s2 : ost T) :
-  cs <> [] -> o_variant s1 <> Ghost ->
+  cs <> [] ->
   o_skipq s1 = [] -> o_last_skipped s1 = false -> o_skipq s2 = [] -> o_last_skipped s2 = false -> restE s1 = restE s2 ->
   restE (run (split_prog cs) s1) = restE (run (unsplit_prog (List.concat cs)) s2) /\
   o_skipq (run (split_prog cs) s1) = [] /\ o_skipq (run (unsplit_prog (List.concat cs)) s2) = [].
 Proof.
-  intros NE V Q1 L1 Q2 L2 RE. apply split_gen; auto.
+  intros NE Q1 L1 Q2 L2 RE. apply split_gen; auto.
   - unfold pend_ok. rewrite L1. discriminate.
   - unfold pend. rewrite L1. cbn [app]. destruct (restE_fields _ _ RE) as (-> & _). reflexivity.
 Qed.
